@@ -77,3 +77,87 @@ Theorem one_entry_cache_refuted :
 Proof.
   exists ["A"; "B"; "A"]%string, 0%nat, 2%nat, "A"%string, 0%nat, 2%nat. repeat split; try reflexivity. discriminate.
 Qed.
+
+(** every bounded memo is not stable: with room for m entries, m+1 different classes and then the first again *)
+Fixpoint nm (i : nat) : string := match i with O => EmptyString | S j => String (Ascii.ascii_of_nat 97) (nm j) end.
+
+Lemma nm_inj i j : nm i = nm j -> i = j.
+Proof.
+  revert j. induction i as [|i IH]; intros [|j] H; cbn [nm] in H; try discriminate; [reflexivity|].
+  injection H as H. f_equal. apply IH. exact H.
+Qed.
+
+Definition ent (i : nat) : string * nat := (nm i, i).
+Definition ents (t : nat) : list (string * nat) := map ent (rev (seq 0 t)).
+
+Lemma ents_S t : ents (S t) = ent t :: ents t.
+Proof. unfold ents. rewrite seq_S, rev_app_distr. reflexivity. Qed.
+
+Lemma find_fresh x l : ~ In x l -> find (nm x) (map ent l) = None.
+Proof.
+  induction l as [|y l IH]; intros Hn; cbn [map find ent]; [reflexivity|].
+  destruct (String.eqb (nm y) (nm x)) eqn:E.
+  - apply String.eqb_eq, nm_inj in E. subst y. exfalso. apply Hn. left. reflexivity.
+  - apply IH. intros Hin. apply Hn. right. exact Hin.
+Qed.
+
+Lemma firstn_cons_firstn {A} m (x : A) l : firstn m (x :: firstn m l) = firstn m (x :: l).
+Proof.
+  destruct m as [|m]; [reflexivity|]. rewrite !firstn_cons. f_equal.
+  rewrite firstn_firstn. f_equal. lia.
+Qed.
+
+Lemma firstn_In {A} m (x : A) l : In x (firstn m l) -> In x l.
+Proof. intros H. rewrite <- (firstn_skipn m l). apply in_or_app. left. exact H. Qed.
+
+Lemma firstn_map {A B} (f : A -> B) m l : firstn m (map f l) = map f (firstn m l).
+Proof. revert l. induction m as [|m IH]; intros [|a l]; cbn [firstn map]; try reflexivity. f_equal. apply IH. Qed.
+
+Lemma lookup_fresh k t :
+  lookup (Some k) (mkCache (firstn (Z.to_nat k) (ents t)) t) (nm t)
+  = (mkCache (firstn (Z.to_nat k) (ents (S t))) (S t), t).
+Proof.
+  unfold lookup. cbn [entries next_id].
+  assert (F : find (nm t) (firstn (Z.to_nat k) (ents t)) = None).
+  { unfold ents. rewrite firstn_map. apply find_fresh. intros Hin.
+    apply firstn_In in Hin. apply in_rev in Hin. apply in_seq in Hin. lia. }
+  rewrite F. unfold trim. rewrite firstn_cons_firstn, ents_S. reflexivity.
+Qed.
+
+Lemma run_fresh k n : forall t rest,
+  run (Some k) (mkCache (firstn (Z.to_nat k) (ents t)) t) (map nm (seq t n) ++ rest)
+  = seq t n ++ run (Some k) (mkCache (firstn (Z.to_nat k) (ents (t + n))) (t + n)) rest.
+Proof.
+  induction n as [|n IH]; intros t rest.
+  - cbn [seq map app]. rewrite Nat.add_0_r. reflexivity.
+  - cbn [seq map app run]. rewrite lookup_fresh. cbn [app]. f_equal.
+    rewrite IH. replace (S t + n)%nat with (t + S n)%nat by lia. reflexivity.
+Qed.
+
+Lemma first_is_evicted m : find (nm 0) (firstn m (ents (S m))) = None.
+Proof.
+  unfold ents. rewrite firstn_map. apply find_fresh.
+  cbn [seq]. cbn [rev]. rewrite firstn_app.
+  rewrite rev_length, seq_length, Nat.sub_diag. cbn [firstn]. rewrite app_nil_r.
+  intros Hin. apply firstn_In in Hin. apply in_rev in Hin. apply in_seq in Hin. lia.
+Qed.
+
+Theorem bounded_cache_refuted (k : Z) :
+  exists h i j n idi idj, nth_error h i = Some n /\ nth_error h j = Some n /\
+    nth_error (run (Some k) empty_cache h) i = Some idi /\
+    nth_error (run (Some k) empty_cache h) j = Some idj /\ idi <> idj.
+Proof.
+  set (m := Z.to_nat k).
+  exists (map nm (seq 0 (S m)) ++ [nm 0]), 0%nat, (S m), (nm 0), 0%nat, (S m).
+  assert (R : run (Some k) empty_cache (map nm (seq 0 (S m)) ++ [nm 0]) = seq 0 (S m) ++ [S m]).
+  { replace empty_cache with (mkCache (firstn (Z.to_nat k) (ents 0)) 0)
+      by (unfold ents; cbn [seq rev map]; rewrite firstn_nil; reflexivity).
+    rewrite run_fresh. f_equal. cbn [Nat.add run]. unfold lookup. cbn [entries next_id].
+    fold m. rewrite first_is_evicted. reflexivity. }
+  rewrite R. repeat split.
+  - rewrite nth_error_app2 by (rewrite map_length, seq_length; lia).
+    rewrite map_length, seq_length, Nat.sub_diag. reflexivity.
+  - rewrite nth_error_app2 by (rewrite seq_length; lia).
+    rewrite seq_length, Nat.sub_diag. reflexivity.
+  - lia.
+Qed.
